@@ -59,15 +59,23 @@ def poll_result(p):
     return res.discr, res
 
 
-def run_action(run, ex, W, name, method='execute', w0=None, prep=None, allow_havoc=(), world_extra=None):
+def run_action(run, ex, W, name, method='execute', w0=None, prep=None, allow_havoc=(), world_extra=None, start_world=None, pc=None, tag=''):
     spec = ACTIONS[name]
     f = ex.find(rf'(^|::){spec["mod"]}::<impl at [^>]*>::{method}$')
     ex.const_params = {k: z3.BoolVal(v) for k, v in spec.get('consts', {}).items()}
     w0 = w0 or initial_world()
-    me = Obj(spec['ty']); state = Obj('S', kind='cell')
+    me = Obj(spec['ty'] if not tag else spec['ty']); state = Obj('S', kind='cell')
+    me.attrs['tag'] = tag
     if prep:
         prep(me)
-    st = ex.start(f, [B.cell(me), state], world=dict(w0, block_fees=[], cached_deposits=[], events=[], validator_updates=list(w0.get('validator_updates', [])), **(world_extra or {})))
+    if start_world is not None:
+        import copy
+        world = {k: (list(v) if isinstance(v, list) else v) for k, v in start_world.items()}
+    else:
+        world = dict(w0, block_fees=[], cached_deposits=[], events=[], validator_updates=list(w0.get('validator_updates', [])), **(world_extra or {}))
+    st = ex.start(f, [B.cell(me), state], world=world)
+    if pc:
+        st.pc += list(pc)
     paths = run.explore(ex, st, poll=True, allow_havoc=allow_havoc)
     out = []
     for p in paths:
